@@ -134,6 +134,23 @@ func checkObject(s0 *schema.Schema, want string, wantErr error, l legs, marshalT
 			}
 		}
 	}
+	if marshalTextOK && jsonOK && l.text && l.json {
+		// encoders must not depend on (or disturb) one another: the text rendering and the resolution of the same object
+		// after it has been encoded to JSON are what they were before
+		*cur = "text-after-json"
+		if t1, err := s0.MarshalCedar(); err == nil {
+			if _, err := s0.MarshalJSON(); err == nil {
+				t1b, _ := s0.MarshalCedar()
+				if string(t1b) != string(t1) {
+					out = append(out, finding{"text/after-json", fmt.Sprintf("MarshalCedar differs after a MarshalJSON of the same object:\n%s\n----\n%s", t1, t1b)})
+				}
+				got, gotErr := resolveCanon(s0)
+				if ok, d := sameResolution(want, wantErr, got, gotErr); !ok {
+					out = append(out, finding{"resolve/after-json", d})
+				}
+			}
+		}
+	}
 	if l.cross && jsonOK && marshalTextOK {
 		if sText != nil {
 			*cur = "cross/text-json"
@@ -385,6 +402,27 @@ func TestShapeTable(t *testing.T) {
 		"json-only-unknown-extension":   {NS: []sch.NS{{Entities: []sch.Entity{ent("A", sch.A("x", sch.Ext("foo")))}}}},
 		"json-only-empty-applies":       {NS: []sch.NS{{Entities: []sch.Entity{{Name: "A"}}, Actions: []sch.Action{{Name: "a", Applies: &sch.Applies{Principals: []string{}, Resources: []string{"A"}}}}}}},
 		"json-only-shadowed-entity-ref": {NS: []sch.NS{{Commons: []sch.Common{{Name: "A", T: sch.Lng()}}, Entities: []sch.Entity{{Name: "A"}, ent("B", sch.A("e", sch.EntRef("A")))}}}},
+	}
+	// records nested 1..14 deep (every other level inside a Set), as entity shape, tags, action context and common type,
+	// in a namespace and bare: printers that indent per level, decoders that recurse per level
+	nested := func(d int) sch.Type {
+		t := sch.Lng()
+		for i := 0; i < d; i++ {
+			t = sch.Rec(sch.A("a", t), sch.AOpt("b", sch.Str()))
+			if i%2 == 1 {
+				t = sch.SetOf(t)
+			}
+		}
+		return t
+	}
+	for d := 1; d <= 14; d++ {
+		for _, nsName := range []string{"", "NS"} {
+			nt := nested(d)
+			inner := nested(d - 1)
+			tables[fmt.Sprintf("nested-records-%d-%s", d, nsName)] = &sch.Schema{NS: []sch.NS{{Name: nsName, Commons: []sch.Common{{Name: "X", T: nt}},
+				Entities: []sch.Entity{{Name: "U", HasShape: true, Shape: []sch.Attr{sch.A("a", inner), sch.A("x", sch.Ref("X"))}, Tags: &nt}},
+				Actions:  []sch.Action{act("view", "U", "U", &sch.Type{K: sch.TRecord, Attrs: []sch.Attr{sch.A("a", inner)}})}}}}
+		}
 	}
 	count := 0
 	for name, s := range tables {
